@@ -217,6 +217,9 @@ def afb1d_atrous(x, h0, h1, mode='periodic', dim=-1, dilation=1):
     # Calculate the pad size
     L2 = (L * dilation)//2
     pad = (0, 0, L2-dilation, L2) if d == 2 else (L2-dilation, L2, 0, 0)
+    # The undecimated transform with periodization is a circular convolution
+    if mode == 'per' or mode == 'periodization':
+        mode = 'periodic'
     x = mypad(x, pad=pad, mode=mode)
     lohi = F.conv2d(x, h, groups=C, dilation=dilation)
 
@@ -517,6 +520,8 @@ def afb2d_atrous(x, filts, mode='periodization', dilation=1):
 
     lohi = afb1d_atrous(x, h0_row, h1_row, mode=mode, dim=3, dilation=dilation)
     y = afb1d_atrous(lohi, h0_col, h1_col, mode=mode, dim=2, dilation=dilation)
+    s = y.shape
+    y = y.reshape(s[0], -1, 4, s[-2], s[-1])
 
     return y
 
